@@ -41,6 +41,11 @@ type Scenario struct {
 	// PreemptFree makes thread switches cost nothing: only
 	// Choose/Event deviations are bounded.
 	PreemptFree bool
+	// YieldAfterUnlock adds a scheduling point after every release of a
+	// shim lock (default: only acquisitions are scheduling points). Use
+	// it in small scenarios that target code touching shared state
+	// right after dropping a lock (lost wake-ups on re-read channels).
+	YieldAfterUnlock bool
 	// Bounds overrides the deviation bound per tier ("quick",
 	// "thorough"); -1 is unbounded (needs a state key).
 	Bounds map[string]int
@@ -145,6 +150,7 @@ func runOnce(t *testing.T, sc *Scenario, prefix []int, expect []Point, branchFro
 			T: t, byG: map[int64]*Thread{}, locks: map[any]*lockState{},
 			prefix: prefix, expect: expect, branchFrom: branchFrom, visit: visit,
 			maxSteps: sc.MaxSteps, verbose: verbose, preemptFree: sc.PreemptFree,
+			yieldAfterUnlock: sc.YieldAfterUnlock,
 		}
 		if x.maxSteps == 0 {
 			x.maxSteps = 2000
